@@ -24,8 +24,9 @@ Methods == {"getBlock", "getTransaction", "getSignaturesForAddress", "getBlockTi
 \* shape of "params"
 ParamShapes == {"absent", "null", "emptyarray", "object", "string", "number", "array"}
 \* first element when params is a non-empty array
-Firsts == {"null", "bool", "key-archived", "key-absent", "garbage-string", "empty-string", "long-string", "int-archived", "int-absent",
+Firsts == {"null", "bool", "key-archived", "key-absent", "garbage-string", "empty-string", "long-string", "int-archived", "int-first", "int-absent",
            "negative", "fraction", "huge", "array", "object"}
+\* ("int-first": the first block of a loaded epoch, whose parent block lies in an epoch that is not loaded)
 \* second element (options)
 Seconds == {"none", "null", "number", "string", "array", "empty", "valid", "wrongtypes", "unknown-encoding", "bad-sigs", "huge-limit", "negative-limit", "null-members", "null-encoding"}
 Ids == {"int", "string", "null", "object", "absent"}
@@ -53,7 +54,7 @@ Expect == IF kind = "transport" THEN "http"
           ELSE IF method \in {"unknown", "nonstring", "absent"} \cup LongUnknown THEN "nomethod"
           ELSE IF method \notin NeedsParams THEN "handled"
           ELSE IF pshape # "array" THEN "params"
-          ELSE IF method \in {"getBlock", "getBlockTime"} /\ first \notin {"int-archived", "int-absent", "negative", "fraction", "huge"} THEN "params"
+          ELSE IF method \in {"getBlock", "getBlockTime"} /\ first \notin {"int-archived", "int-first", "int-absent", "negative", "fraction", "huge"} THEN "params"
           ELSE IF method \in {"getTransaction", "getSignaturesForAddress"} /\ first \notin {"key-archived", "key-absent"} THEN "params"
           ELSE IF second \in {"number", "string", "array", "wrongtypes"} THEN "params"
           ELSE "handled"
